@@ -292,6 +292,21 @@ func Value(r *rand.Rand, t *refproto.Type) any {
 
 // Values draws n values.
 func Values(r *rand.Rand, t *refproto.Type, n int) []any {
+	if t.Kind == refproto.KLowCard && n >= 200 && r.UintN(2) == 0 {
+		// a dictionary that needs keys wider than one byte: several hundred distinct values
+		inner := t.Elems[0]
+		pool := 254 + int(r.UintN(300))
+		out := make([]any, n)
+		for i := range out {
+			rr := rand.New(rand.NewPCG(uint64(r.UintN(uint(pool))), 11))
+			v := Value(rr, inner)
+			if s, ok := v.(string); ok && inner.Kind == refproto.KString {
+				v = fmt.Sprintf("%s/%d", s, rr.UintN(1<<30))
+			}
+			out[i] = v
+		}
+		return out
+	}
 	out := make([]any, n)
 	for i := range out {
 		out[i] = Value(r, t)
@@ -301,7 +316,7 @@ func Values(r *rand.Rand, t *refproto.Type, n int) []any {
 
 // DrawRows draws a boundary-biased row count.
 func DrawRows(c *choice.Stream, label string) int {
-	switch c.Weighted(label, 2, 3, 8, 2, 1) {
+	switch c.Weighted(label, 2, 3, 8, 2, 2) {
 	case 0:
 		return 0
 	case 1:
@@ -311,6 +326,6 @@ func DrawRows(c *choice.Stream, label string) int {
 	case 3:
 		return 10 + c.Draw(label+".m", 120)
 	default:
-		return 250 + c.Draw(label+".l", 20)
+		return 250 + c.Draw(label+".l", 400)
 	}
 }
